@@ -415,6 +415,7 @@ def save_score_midi(
             # in case of incomplete measures later in the score.
             all_ts = list(part.iter_all(score.TimeSignature))
             ts_changing_time = [ts.start.t for ts in all_ts]
+            irregular_measure_time = []
             for measure in part.iter_all(score.Measure):
                 m_duration_beat = part.beat_map(measure.end.t) - part.beat_map(
                     measure.start.t
@@ -430,11 +431,11 @@ def save_score_midi(
                             denominator=int(m_ts[1]),
                         )
                     )
-                    ts_changing_time.append(
+                    irregular_measure_time.append(
                         measure.start.t
                     )  # keep track of changing the ts
-                    # now go back to original ts if there is no ts change after this measure
-                    if not any([ts_t > measure.start.t for ts_t in ts_changing_time]):
+                    # now go back to original ts if there is no ts change at the end of this measure
+                    if measure.end.t not in ts_changing_time:
                         meta_events[part][to_ppq(measure.end.t)].append(
                             MetaMessage(
                                 "time_signature",
@@ -450,7 +451,7 @@ def save_score_midi(
 
             # now add the normal time signature change
             for ts in part.iter_all(score.TimeSignature):
-                if ts.start.t in ts_changing_time:
+                if ts.start.t in irregular_measure_time:
                     # don't add if something is already added at this time to cover the case of a ts change when the first measure is shorter/longer
                     pass
                 else:
